@@ -20,7 +20,7 @@ KEYWORDS = ["aa", "bb", "cc", "kw", "end", "begin", "x1", "_k"]
 SYMBOLS = ["+", "-", "*", "(", ")", "{", "}", ",", ";", ":", "->", "=", "@"]
 REGEXES = [r"[A-Z][a-z]*", r"[0-9]+", r"\$[a-z]+", r"<[a-z]+>", r"<([a-z]+)>", r"[a-z]+\b", r"0x([0-9a-f]+)"]
 ATTRS = ["a", "b", "c", "d"]
-WS_MODS = [" ", " \\t", "\\n ", " \\t\\n"]
+WS_MODS = [" ", " \\t", "\\n ", " \\t\\n", " \\t\\r\\n", " \\r"]
 COMMENT_RULES = {"line": r"/#[^\n]*/", "block": r"/\/\*[^*]*\*\//", "both": r"/#[^\n]*/ | /\/\*[^*]*\*\//"}
 
 
